@@ -41,6 +41,27 @@ def run(res):
         g = vlib.tlc("DecRowDeps", cfg, workers=4, timeout=900)
         if g["ok"] or g["violated"] != inv:
             raise vlib.ModelFailure("DecRowDeps guard %s: expected a violation of %s" % (cfg, inv))
+    # the superblock wavefront inside each stage (DecWave.tla): each stage's wait expression, as coded, implies the data
+    # dependency (left + above-right superblock complete) on every grid / thread assignment and cannot stall; the threshold
+    # weakened by one must violate (vacuity guard); rows must really overlap (witness)
+    wave = [(k, "") for k in ("recon", "lf", "cdef", "lr")] + [(k, "w1") for k in ("recon", "lf", "lr")]
+    for k, sfx in wave:
+        cfg = "DecWave_%s_%s.cfg" % (k, sfx or "0")
+        r = vlib.tlc("DecWave", cfg, workers=2, timeout=900)
+        res.tlc_stats(r)
+        res.case("tlc:" + cfg)
+        if not r["ok"]:
+            res.violation("DecWave model (%s) violates %s" % (cfg, r["violated"]), r["out"][-4000:])
+    guards = [("DecWave_%s_1.cfg" % k, "NoEarlyStart") for k in ("recon", "lf", "cdef", "lr")] + [("DecWave_wit.cfg", "NeverConcurrent")]
+    # observation, not a finding: with ONE superblock column the CDEF progress word's reset value (0) already reads "superblock 0
+    # done", so a row does not wait for the row above at all (DecWave_cdef_w1.cfg violates NoEarlyStart).  Pictures one
+    # superblock wide and several high crash earlier in the real decoder (recorded C08 finding), so no execution can show it.
+    guards.append(("DecWave_cdef_w1.cfg", "NoEarlyStart"))
+    for cfg, inv in guards:
+        g = vlib.tlc("DecWave", cfg, workers=2, timeout=900)
+        if g["ok"] or g["violated"] != inv:
+            raise vlib.ModelFailure("DecWave guard %s: expected a violation of %s" % (cfg, inv))
+    res.cov["decwave_observation"] = "DecWave_cdef_w1.cfg (one superblock column): CDEF rows do not wait for the row above; unreachable in the real decoder (portrait grids crash first)"
     rng = random.Random(res.seed * 67 + 14)
     cs = []
 
@@ -81,15 +102,20 @@ def run(res):
         out = r["out"] + ".dec_t%d_s%d" % (t, s)
         args = ["--svt", "--threads", str(t), "--who", "svt", "-w", str(c["w"]), "-h", str(c["h"]), "--bits", str(c["bits"])]
         if t > 1:
-            args += ["--trace", "dec", "--trace-out", out + ".trc"]     # row-job events of the multi-threaded stages
+            args += ["--trace", "dec,decsb", "--trace-out", out + ".trc"]     # row-job and superblock events of the multi-threaded stages
         if s:
             args += ["--perturb", "%d:%d:%d" % (rng.randrange(1, 10 ** 6), 200, 0)]      # yields only (the decoder busy-waits)
+            if t > 1:
+                # the emitting thread sleeps now and then right after an event: row workers drift against each other, so a row
+                # regularly catches up with the row above and really has to wait at the top-right sync point
+                args += ["--trace-jitter", "%d:%d:%d" % (rng.randrange(1, 10 ** 6), 120, 400)]
         d = common.run_dec(r["out"] + ".pkts", out, args, timeout=90, variant="hooks")
         if os.path.exists(out):
             os.unlink(out)
-        d["rows"] = None
+        d["rows"] = d["sbs"] = None
         if os.path.exists(out + ".trc"):
             d["rows"] = [{"ev": "Reset", "a": []}] + [{"ev": ev, "a": a} for _, _, _, _, ev, a in vlib.read_trace(out + ".trc", "dec")]
+            d["sbs"] = [{"ev": "Reset", "a": []}] + [{"ev": ev, "a": a} for _, _, _, _, ev, a in vlib.read_trace(out + ".trc", "decsb")]
             os.unlink(out + ".trc")
         return r, t, s, d
     b = corpus.Bundle()
@@ -108,6 +134,8 @@ def run(res):
         b.add("Observe", stream.observe_events(r["desc"], None, d), desc)
         if d.get("rows") and len(d["rows"]) > 1:
             b.add("DecRowsTrace", d["rows"], desc)
+        if d.get("sbs") and len(d["sbs"]) > 1:
+            b.add("DecWaveTrace", d["sbs"], desc)
     res.sample({"observations": b.recs.get("Observe", [])[:4]})
     res.sample({"row_job_trace_prefix": b.recs.get("DecRowsTrace", [])[:12]})
     def kf(rej):
@@ -119,6 +147,11 @@ def run(res):
     # the row-job protocol of every multi-threaded decode, event by event (DecRowsTrace.tla)
     b.validate(res, "DecRowsTrace", "C09 decoder row-job protocol (recon -> LF -> CDEF -> LR dependencies, once per row, reset behind the barrier)",
                key_fn=lambda rej: {"kind": "row_protocol", "event": (rej.get("event") or {}).get("ev")})
+    # the superblock wavefront inside every stage (DecWaveTrace.tla): a superblock starts only after its left and above-right
+    # neighbours of the same stage are complete
+    res.sample({"superblock_trace_prefix": b.recs.get("DecWaveTrace", [])[:10]})
+    b.validate(res, "DecWaveTrace", "C09 superblock wavefront inside the decoder stages (top-right sync of recon, deblocking, CDEF, restoration)",
+               key_fn=lambda rej: {"kind": "sb_wavefront", "event": (rej.get("event") or {}).get("ev"), "stage": ((rej.get("event") or {}).get("a") or [None])[0]})
     if res.tier == "thorough":
         # oversubscribed regime: 10 concurrent decodes with up to 16 busy-waiting threads each and sleeps inside critical sections
         jo = [(r, t, 1 + i) for i, r in enumerate([x for x in rs if x["rc"] == 0][:2]) for t in (6, 10, 14, 16, 16)]
